@@ -6,6 +6,7 @@ import Winter.Model.Field
 import Mathlib.Data.ZMod.Basic
 import Mathlib.FieldTheory.Finite.Basic
 import Mathlib.Tactic.LinearCombination
+import Mathlib.Tactic.Linarith
 
 namespace WinterProofs.F62Z
 open Gen.F62 WinterProofs.F62L
@@ -304,6 +305,7 @@ and the cofactor `a` leaves the main loop below `64·M` (it is NOT bounded by a 
 `M`: each subtract-and-halve-once step can raise it by `M/2`). -/
 
 open Model.F62 (halve reduceU outer reduceA)
+open Model (Fuel)
 
 theorem two_ne_zero_P : (2 : ZMod P) ≠ 0 := by
   intro h
@@ -359,6 +361,297 @@ theorem halve_spec : ∀ (fuel u d C : Nat), 0 < u → u < 2 ^ fuel →
       · rw [pow_succ, ← mul_assoc, h3]; omega
       · rw [pow_succ, ← mul_assoc, h4, hc]
     · exact ⟨u, d, 0, halve_stop fuel u d (by omega), by omega, by simp, by simp, hd⟩
+
+
+/-- the halving loop on an even positive word (the only way the code enters it) -/
+theorem halve_even (fuel u d C : Nat) (h0 : 0 < u) (hev : u % 2 = 0) (hu : u < 2 ^ (fuel + 1))
+    (hC : 2 * 4611624995532046337 ≤ C) (hd : d + 4611624995532046337 ≤ C) :
+    ∃ u' d' j, halve (fuel + 1) u d = .done (u', d') ∧ u' % 2 = 1 ∧ u' * 2 ^ (j + 1) = u ∧
+      (d' : ZMod P) * 2 ^ (j + 1) = (d : ZMod P) ∧ 2 * d' ≤ C := by
+  obtain ⟨e, he, he1⟩ := half_fix d
+  have hc := half_fix_cast d
+  obtain ⟨d1, hd1⟩ : ∃ d1, (if d % 2 = 1 then d + 4611624995532046337 else d) / 2 = d1 := ⟨_, rfl⟩
+  rw [hd1] at he hc
+  have hu2 : u / 2 < 2 ^ fuel := by rw [pow_succ] at hu; omega
+  obtain ⟨u', d', j, h1, h2, h3, h4, h5⟩ := halve_spec fuel (u / 2) d1 C (by omega) hu2 hC (by omega)
+  refine ⟨u', d', j, ?_, h2, ?_, ?_, h5⟩
+  · rw [halve_step fuel u d hev, hd1]; exact h1
+  · rw [pow_succ, ← mul_assoc, h3]; omega
+  · rw [pow_succ, ← mul_assoc, h4, hc]
+
+/-- loop invariant of the extended binary GCD (see the section comment) -/
+structure St (X : ZMod P) (a u v d k : Nat) : Prop where
+  hu : u % 2 = 1
+  hv : v % 2 = 1
+  cop : Nat.Coprime u v
+  ca : (a : ZMod P) * X = (v : ZMod P)
+  cd : (d : ZMod P) * X = - (u : ZMod P)
+  prod : u * v * 2 ^ k ≤ 2 ^ 126
+  ba : 2 * a ≤ (k + 2) * 4611624995532046337
+  bd : 2 * d ≤ (k + 2) * 4611624995532046337
+
+theorem St.k_le {X : ZMod P} {a u v d k : Nat} (h : St X a u v d k) : k ≤ 126 := by
+  have hu : 1 ≤ u := by have := h.hu; omega
+  have hv : 1 ≤ v := by have := h.hv; omega
+  have h1 : 1 * 1 * 2 ^ k ≤ u * v * 2 ^ k := Nat.mul_le_mul_right _ (Nat.mul_le_mul hu hv)
+  have h2 : 2 ^ k ≤ 2 ^ 126 := by
+    have := le_trans h1 h.prod
+    simpa using this
+  exact (Nat.pow_le_pow_iff_right (by norm_num)).1 h2
+
+theorem St.u_lt {X : ZMod P} {a u v d k : Nat} (h : St X a u v d k) : u < 2 ^ 200 := by
+  have hv : 1 ≤ v := by have := h.hv; omega
+  have hk : 1 ≤ 2 ^ k := Nat.one_le_two_pow
+  have h1 : u * 1 * 1 ≤ u * v * 2 ^ k := Nat.mul_le_mul (Nat.mul_le_mul_left _ hv) hk
+  have h2 : u ≤ 2 ^ 126 := by
+    have := le_trans h1 h.prod
+    simpa using this
+  exact lt_of_le_of_lt h2 (by norm_num)
+
+theorem St.v_lt {X : ZMod P} {a u v d k : Nat} (h : St X a u v d k) : v < 2 ^ 200 := by
+  have hu : 1 ≤ u := by have := h.hu; omega
+  have hk : 1 ≤ 2 ^ k := Nat.one_le_two_pow
+  have h1 : 1 * v * 1 ≤ u * v * 2 ^ k := Nat.mul_le_mul (Nat.mul_le_mul_right _ hu) hk
+  have h2 : v ≤ 2 ^ 126 := by
+    have := le_trans h1 h.prod
+    simpa using this
+  exact lt_of_le_of_lt h2 (by norm_num)
+
+/-- the product potential after "subtract, then halve at least once" -/
+theorem prod_step (u v w j k : Nat) (hw : w * 2 ^ (j + 1) ≤ u) :
+    w * v * 2 ^ (k + 1) ≤ u * v * 2 ^ k := by
+  have h1 : w * 2 ≤ u := by
+    have : w * 2 ≤ w * 2 ^ (j + 1) := by
+      apply Nat.mul_le_mul_left
+      calc 2 = 2 ^ 1 := by norm_num
+        _ ≤ 2 ^ (j + 1) := Nat.pow_le_pow_right (by norm_num) (by omega)
+    omega
+  calc w * v * 2 ^ (k + 1) = (w * 2) * v * 2 ^ k := by rw [pow_succ]; ring
+    _ ≤ u * v * 2 ^ k := Nat.mul_le_mul_right _ (Nat.mul_le_mul_right _ h1)
+
+theorem prod_step' (u v w j k : Nat) (hw : w * 2 ^ (j + 1) ≤ v) :
+    u * w * 2 ^ (k + 1) ≤ u * v * 2 ^ k := by
+  have := prod_step v u w j k hw
+  calc u * w * 2 ^ (k + 1) = w * u * 2 ^ (k + 1) := by ring
+    _ ≤ v * u * 2 ^ k := this
+    _ = u * v * 2 ^ k := by ring
+
+/-- cancel the power of two in a halved congruence -/
+theorem cancel_pow {d1 X rhs : ZMod P} (j : Nat) (h : d1 * 2 ^ j * X = rhs * 2 ^ j) : d1 * X = rhs := by
+  have h2 : (d1 * X) * 2 ^ j = rhs * 2 ^ j := by rw [← h]; ring
+  exact mul_right_cancel₀ (two_pow_ne_zero_P j) h2
+
+theorem reduceU_step (fuel u v a d u' d' : Nat) (hlt : v < u)
+    (hh : halve 200 (u - v) (d + a) = .done (u', d')) :
+    reduceU (fuel + 1) u v a d = reduceU fuel u' v a d' := by
+  show (if v < u then
+      (match halve 200 (u - v) (d + a) with
+        | .done (u', d') => reduceU fuel u' v a d'
+        | .out => .out)
+    else .done (u, d)) = _
+  rw [if_pos hlt, hh]
+
+theorem reduceU_stop (fuel u v a d : Nat) (hlt : ¬ v < u) :
+    reduceU (fuel + 1) u v a d = .done (u, d) := by
+  show (if v < u then
+      (match halve 200 (u - v) (d + a) with
+        | .done (u', d') => reduceU fuel u' v a d'
+        | .out => .out)
+    else .done (u, d)) = _
+  rw [if_neg hlt]
+
+/-- `while v < u { u -= v; d += a; halve }`: terminates within the fuel and keeps the invariant -/
+theorem reduceU_spec (X : ZMod P) : ∀ (fuel a u v d k : Nat), St X a u v d k → 127 ≤ k + fuel →
+    ∃ u' d' k', reduceU fuel u v a d = .done (u', d') ∧ St X a u' v d' k' ∧ u' ≤ v ∧ k ≤ k' := by
+  intro fuel
+  induction fuel with
+  | zero => intro a u v d k h hk; have := h.k_le; omega
+  | succ fuel ih =>
+    intro a u v d k h hk
+    by_cases hlt : v < u
+    · have hu := h.hu
+      have hv := h.hv
+      have hba := h.ba
+      have hbd := h.bd
+      have hba' : 2 * a ≤ (k + 1 + 2) * 4611624995532046337 := by linarith
+      obtain ⟨u1, d1, j, e1, e2, e3, e4, e5⟩ := halve_even 199 (u - v) (d + a)
+        ((k + 1 + 2) * 4611624995532046337) (by omega) (by omega)
+        (lt_of_le_of_lt (Nat.sub_le _ _) h.u_lt) (by linarith) (by linarith)
+      have hst : St X a u1 v d1 (k + 1) := by
+        refine ⟨e2, hv, ?_, h.ca, ?_, ?_, hba', e5⟩
+        · have hc : Nat.Coprime (u - v) v := (Nat.coprime_sub_self_left (le_of_lt hlt)).2 h.cop
+          exact Nat.Coprime.coprime_dvd_left ⟨2 ^ (j + 1), e3.symm⟩ hc
+        · apply cancel_pow (j + 1)
+          rw [e4]
+          have e3' := congrArg (Nat.cast : Nat → ZMod P) e3
+          rw [Nat.cast_mul, Nat.cast_pow, Nat.cast_sub (le_of_lt hlt)] at e3'
+          rw [neg_mul, Nat.cast_ofNat] at *
+          rw [e3', Nat.cast_add, add_mul, h.ca, h.cd]
+          ring
+        · exact le_trans (prod_step u v u1 j k (by rw [e3]; exact Nat.sub_le _ _)) h.prod
+      obtain ⟨u', d', k', r1, r2, r3, r4⟩ := ih a u1 v d1 (k + 1) hst (by omega)
+      exact ⟨u', d', k', by rw [reduceU_step fuel u v a d u1 d1 hlt e1]; exact r1, r2, r3, by omega⟩
+    · exact ⟨u, d, k, reduceU_stop fuel u v a d hlt, h, by omega, le_refl _⟩
+
+theorem outer_stop (fuel a u d : Nat) : outer (fuel + 1) a u 1 d = .done a := rfl
+
+theorem outer_step (fuel a u v d u' d' v' a' : Nat) (hv : v ≠ 1)
+    (h1 : reduceU 400 u v a d = .done (u', d'))
+    (h2 : halve 200 (v - u') (a + d') = .done (v', a')) :
+    outer (fuel + 1) a u v d = outer fuel a' u' v' d' := by
+  show (if v = 1 then Fuel.done a
+    else
+      (match reduceU 400 u v a d with
+        | Fuel.out => Fuel.out
+        | Fuel.done (u, d) =>
+          match halve 200 (v - u) (a + d) with
+          | Fuel.out => Fuel.out
+          | Fuel.done (v', a') => outer fuel a' u v' d)) = _
+  rw [if_neg hv, h1]
+  show (match halve 200 (v - u') (a + d') with
+          | Fuel.out => Fuel.out
+          | Fuel.done (v', a') => outer fuel a' u' v' d') = _
+  rw [h2]
+
+/-- `while v != 1 { … }`: terminates within the fuel with `a·X = 1` and `a ≤ 64·M` -/
+theorem outer_spec (X : ZMod P) : ∀ (fuel a u v d k : Nat), St X a u v d k → 127 ≤ k + fuel →
+    ∃ r, outer fuel a u v d = .done r ∧ (r : ZMod P) * X = 1 ∧ r ≤ 64 * 4611624995532046337 := by
+  intro fuel
+  induction fuel with
+  | zero => intro a u v d k h hk; have := h.k_le; omega
+  | succ fuel ih =>
+    intro a u v d k h hk
+    by_cases hv1 : v = 1
+    · subst hv1
+      refine ⟨a, outer_stop fuel a u d, by simpa using h.ca, ?_⟩
+      have h1 := h.k_le
+      have h2 := h.ba
+      linarith
+    · obtain ⟨u', d', k1, r1, h', hle, hkk⟩ := reduceU_spec X 400 a u v d k h (by omega)
+      have hne : u' ≠ v := by
+        intro he
+        have := h'.cop
+        rw [he, Nat.coprime_self] at this
+        exact hv1 this
+      have hlt : u' < v := lt_of_le_of_ne hle hne
+      have hu := h'.hu
+      have hv := h'.hv
+      have hba := h'.ba
+      have hbd := h'.bd
+      have hbd' : 2 * d' ≤ (k1 + 1 + 2) * 4611624995532046337 := by linarith
+      obtain ⟨v1, a1, j, e1, e2, e3, e4, e5⟩ := halve_even 199 (v - u') (a + d')
+        ((k1 + 1 + 2) * 4611624995532046337) (by omega) (by omega)
+        (lt_of_le_of_lt (Nat.sub_le _ _) h'.v_lt) (by linarith) (by linarith)
+      have hst : St X a1 u' v1 d' (k1 + 1) := by
+        refine ⟨hu, e2, ?_, ?_, h'.cd, ?_, e5, hbd'⟩
+        · have hc : Nat.Coprime u' (v - u') := (Nat.coprime_sub_self_right (le_of_lt hlt)).2 h'.cop
+          exact Nat.Coprime.coprime_dvd_right ⟨2 ^ (j + 1), e3.symm⟩ hc
+        · apply cancel_pow (j + 1)
+          rw [e4]
+          have e3' := congrArg (Nat.cast : Nat → ZMod P) e3
+          rw [Nat.cast_mul, Nat.cast_pow, Nat.cast_sub (le_of_lt hlt)] at e3'
+          rw [Nat.cast_ofNat] at *
+          rw [e3', Nat.cast_add, add_mul, h'.ca, h'.cd]
+          ring
+        · exact le_trans (prod_step' u' v v1 j k1 (by rw [e3]; exact Nat.sub_le _ _)) h'.prod
+      obtain ⟨r, q1, q2, q3⟩ := ih a1 u' v1 d' (k1 + 1) hst (by omega)
+      exact ⟨r, by rw [outer_step fuel a u v d u' d' v1 a1 hv1 r1 e1]; exact q1, q2, q3⟩
+
+/-- final `while a > M { a -= M }` -/
+theorem reduceA_spec : ∀ (fuel a : Nat), a ≤ fuel * 4611624995532046337 → 0 < fuel →
+    ∃ r, reduceA fuel a = .done r ∧ r ≤ 4611624995532046337 ∧ (r : ZMod P) = (a : ZMod P) := by
+  intro fuel
+  induction fuel with
+  | zero => intro a _ h; omega
+  | succ fuel ih =>
+    intro a ha _
+    by_cases hgt : a > 4611624995532046337
+    · have hf : 0 < fuel := by
+        rcases Nat.eq_zero_or_pos fuel with rfl | h
+        · omega
+        · exact h
+      obtain ⟨r, h1, h2, h3⟩ := ih (a - 4611624995532046337) (by rw [Nat.succ_mul] at ha; omega) hf
+      refine ⟨r, ?_, h2, ?_⟩
+      · show (if a > M then reduceA fuel (a - M) else Fuel.done a) = _
+        rw [if_pos (show a > M from hgt)]; exact h1
+      · rw [h3, Nat.cast_sub (le_of_lt hgt), cast_P, sub_zero]
+    · refine ⟨a, ?_, by omega, rfl⟩
+      show (if a > M then reduceA fuel (a - M) else Fuel.done a) = _
+      rw [if_neg (show ¬ a > M from hgt)]
+
+
+theorem inv_zero_case (x : Nat) (h : x = 0 ∨ x = M) : Model.F62.inv x = .done 0 := by
+  unfold Model.F62.inv
+  rw [if_pos h]
+
+theorem inv_unfold (x : Nat) (h : ¬ (x = 0 ∨ x = M)) (a a' : Nat)
+    (h1 : outer 400 0 (if x % 2 = 1 then x else x + M) M (M - 1) = .done a)
+    (h2 : reduceA 200 a = .done a') :
+    Model.F62.inv x = .done (mul (a' % 18446744073709551616) R3) := by
+  unfold Model.F62.inv
+  rw [if_neg h]
+  dsimp only
+  rw [h1]
+  dsimp only
+  rw [h2]
+
+/-- the initial state of the main loop satisfies the invariant -/
+theorem init_state (x : Nat) (hx : Inv x) (h0 : x ≠ 0) (hM : x ≠ 4611624995532046337) :
+    St (x : ZMod P) 0 (if x % 2 = 1 then x else x + 4611624995532046337) 4611624995532046337
+      (4611624995532046337 - 1) 0 := by
+  have hxl := hx.lt
+  obtain ⟨u0, hu0⟩ : ∃ u0, (if x % 2 = 1 then x else x + 4611624995532046337) = u0 := ⟨_, rfl⟩
+  rw [hu0]
+  have hodd : u0 % 2 = 1 := by rw [← hu0]; split <;> omega
+  have hcong : (u0 : ZMod P) = (x : ZMod P) := by
+    rw [← hu0]; split
+    · rfl
+    · rw [Nat.cast_add, cast_P, add_zero]
+  have hlt : u0 < 13834874986596139011 := by rw [← hu0]; split <;> omega
+  have hndvd : ¬ (4611624995532046337 ∣ u0) := by
+    rintro ⟨c, hc⟩
+    rw [← hu0] at hc
+    split at hc <;> omega
+  refine ⟨hodd, by decide, ?_, ?_, ?_, ?_, by omega, by omega⟩
+  · exact (Nat.coprime_comm.1 ((Nat.Prime.coprime_iff_not_dvd Primes.prime_M62).2 hndvd))
+  · rw [Nat.cast_zero, zero_mul, cast_P]
+  · rw [hcong, Nat.cast_sub (by decide), cast_P, Nat.cast_one]; ring
+  · rw [pow_zero, mul_one]
+    calc u0 * 4611624995532046337 ≤ 13834874986596139011 * 4611624995532046337 :=
+          Nat.mul_le_mul_right _ (le_of_lt hlt)
+      _ ≤ 2 ^ 126 := by norm_num
+
+/-- inversion: the loops end within the model's fuel for every raw word of the invariant, the
+    result satisfies the invariant, zero (raw `0` and raw `M`) maps to zero and every other
+    residue to its inverse -/
+theorem inv_spec (x : Nat) (hx : Inv x) :
+    ∃ r, Model.F62.inv x = .done r ∧ Inv r ∧ val r = (val x)⁻¹ := by
+  by_cases hz : x = 0 ∨ x = M
+  · refine ⟨0, inv_zero_case x hz, zero_inv, ?_⟩
+    rw [(val_eq_zero_iff x hx).2 hz, val_zero, inv_zero]
+  · have h0 : x ≠ 0 := fun h => hz (Or.inl h)
+    have hM : x ≠ 4611624995532046337 := fun h => hz (Or.inr h)
+    have hst := init_state x hx h0 hM
+    obtain ⟨a, ha1, ha2, ha3⟩ := outer_spec (x : ZMod P) 400 _ _ _ _ 0 hst (by norm_num)
+    obtain ⟨a', hr1, hr2, hr3⟩ := reduceA_spec 200 a (by omega) (by norm_num)
+    have hmod : a' % 18446744073709551616 = a' := Nat.mod_eq_of_lt (by omega)
+    have hprod : a' * R3 < 85069466056501613216581866859205230592 :=
+      prod_lt_word a' R3 (by omega) (by decide)
+    refine ⟨mul a' R3, ?_, (mul_spec_gen a' R3 hprod).1, ?_⟩
+    · have := inv_unfold x hz a a' ha1 hr1
+      rw [hmod] at this
+      exact this
+    · obtain ⟨_, q, h⟩ := mul_spec_gen a' R3 hprod
+      have h1 := cast_mont h
+      have h2 := val_eq_of_mul_R h1
+      have hR := R_Rinv
+      rw [← hr3] at ha2
+      symm
+      apply inv_eq_of_mul_eq_one_left
+      unfold val
+      rw [h2, Nat.cast_mul, R3_eq]
+      linear_combination ((a' : ZMod P) * (x : ZMod P) * ((R : ZMod P) * (Rinv : ZMod P)) *
+          ((R : ZMod P) * (Rinv : ZMod P) + 1) + (a' : ZMod P) * (x : ZMod P)) * hR + ha2
 
 
 end WinterProofs.F62Z
